@@ -443,7 +443,75 @@ def check_args(c):
     return res
 
 
-CHECKERS = {'config': check_config, 'args': check_args}
+def check_warm(c):
+    """A cache that already holds the evaluations of an earlier run (a multi-step history): the second run must not ask again for
+    what is stored, must count only what it evaluates itself, and its budget is a budget of NEW evaluations - every budget value."""
+    res = Res()
+    seed = c.get('seed', 0)
+    N = c['N']
+    T = _target(c, seed)
+    d = len(c['shape'])
+    base = _run(dict(c, cache=False), seed, nswp=N)
+    reqs = [[tuple(int(x) for x in row) for row in b] for b in base['f'].batches]
+    r1 = _run(dict(c, cache=True), seed, nswp=c['first'])
+    E1 = {k: dict.__getitem__(r1['cache'], k) for k in r1['cache'].keys()}
+    res.tr(len(reqs))
+
+    def simulate(m):
+        have, used, sent, stop = set(E1), 0, [], 'nswp'
+        for b in reqs:
+            new = [t for t in b if t not in have]
+            if m is not None and used + len(new) > m:
+                stop = 'm'
+                break
+            sent.extend(new)
+            have.update(new)
+            used += len(new)
+        return sent, stop
+    full, _ = simulate(None)
+    cum, tot = set(), 0
+    for b in reqs:                      # budgets: around every cumulative count of new indices (the accounting changes exactly there)
+        tot += len([t for t in b if t not in E1 and t not in cum])
+        cum.update(t for t in b if t not in E1)
+    marks, have_, run_ = set(), set(E1), 0
+    for b in reqs:
+        k_ = len([t for t in b if t not in have_])
+        have_.update(b)
+        run_ += k_
+        marks.update({run_ - 1, run_, run_ + 1})
+    budgets = [None] + sorted(x for x in marks | {0, 1, len(full) // 2} if x >= 0)
+    for m in budgets:
+        res.ev()
+        case = dict(c, m=m)
+        Y0 = _y0(c, seed)
+        f2 = RecordingObjective(T)
+        C2 = RecordingCache(dict(E1))
+        info = {}
+        try:
+            with warnings.catch_warnings():
+                warnings.simplefilter('ignore')
+                Y = teneva.cross(f2, Y0, m=m, nswp=N, dr_min=c['dr'][0], dr_max=c['dr'][1], info=info, cache=C2, m_cache_scale=BIG)
+        except Exception as ex:
+            res.fail('warm.raised', case, '%s: %s' % (type(ex).__name__, str(ex)[:200]), ['exception'])
+            continue
+        sent = [tuple(int(x) for x in row) for b in f2.batches for row in b]
+        want, wstop = simulate(m if m else None)      # m = 0 is documented as "no budget" (falsy)
+        res.check(not (set(sent) & set(E1)), 'warm.once', case, 'an index stored by the earlier run was evaluated again')
+        res.check(info.get('m') == len(sent), 'warm.m', case, lambda: "info['m']=%r, %d indices were sent to the objective in this run" % (info.get('m'), len(sent)))
+        res.check(set(C2.keys()) == set(E1) | set(sent) and all(dict.__getitem__(C2, k) == float(T[k]) for k in C2.keys()), 'warm.content', case,
+                  'the cache does not hold exactly the earlier entries plus the new evaluations')
+        # a sweep that evaluated nothing new (m = 0 against any number of cache hits) is the documented cache-convergence stop
+        conv_ok = info.get('stop') == 'conv' and not sent and not any(t not in E1 for b in reqs[:2 * d] for t in b)
+        res.check(conv_ok or (sorted(sent) == sorted(want) and info.get('stop') == wstop), 'warm.model', case,
+                  lambda: 'sent %d indices and stopped by %r; the accounting model predicts %d and %r' % (len(sent), info.get('stop'), len(want), wstop))
+        if m:
+            res.check(len(sent) <= m, 'warm.budget', case, lambda: 'budget %d, %d new evaluations' % (m, len(sent)))
+        res.nt((c['shape'], c['r0'], c['dr'], c['first'], m))
+        res.outcome((info.get('stop'), len(sent)))
+    return res
+
+
+CHECKERS = {'config': check_config, 'args': check_args, 'warm': check_warm}
 
 
 def _configs(tier, seed):
@@ -481,6 +549,10 @@ def strata(tier, seed):
             for ca in (False, True)]
     yield Stratum('arg-presence', args, 'args', size=len(args), chunk=1,
                   bounds={'patterns': 16 * 4})
+    wm = [dict(shape=sh, rho=2, r0=r0, dr=list(dr), target='gen', first=first, N=2, seed=seed)
+          for sh in ([[2, 3], [3, 2, 3]] if tier == 'quick' else [[2, 3], [3, 2, 3], [2, 2, 2, 2], [4, 3]])
+          for r0 in (1, 2) for dr in ((0, 0), (1, 1)) for first in (0, 1, 2)]
+    yield Stratum('warm cache: second run on the cache of a first run, every budget', wm, 'warm', size=len(wm), chunk=1, bounds={'first run sweeps': [0, 1, 2], 'second run sweeps': 2})
     if tier == 'thorough':
         p = [dict(c, pairs=True, N=2) for c in _configs('quick', seed)]
         yield Stratum('deviation<=2', p, 'config', size=len(p), chunk=1,
